@@ -2,6 +2,7 @@
 import elevels
 import elock
 import eptr
+import eidx
 import ecanon
 import elin
 import evlm
@@ -68,6 +69,11 @@ def run(ctx):
                 "bits: retagging changes only the tag, untagging clears exactly the tag bits, is_inner reads the bit above them.")
     npt = eptr.run(ctx, F)
     ctx.floor("E-PTR.tagbits", "interpreted mask / accessor situations", npt, 11)
+    ctx.explain("E-IDX.tagbits: the same for the index-based manager's 32 bit edges (tag in the most significant bits): "
+                "TAG_BITS / TAG_SHIFT / TAG_MASK and node_id / is_tagged / with_tag / with_tag_owned / tag / raw are interpreted "
+                "for a one-bit tag and for no tag.")
+    nit = eidx.run(ctx, F)
+    ctx.floor("E-IDX.tagbits", "interpreted constant / accessor situations", nit, 18)
     ctx.explain("E-REC.depth: every splitting method of the ParallelRecursors decrements remaining_depth, the switch to the "
                 "sequential recursor happens exactly at 0, and the SequentialRecursor never asks for a switch.")
     nrd = elock.run_recursor_depth(ctx, F)
